@@ -92,9 +92,10 @@ Definition hdel (h : hmap) (k : bytes) : hmap := filter (fun e => negb (bytes_eq
 Definition hfirst (h : hmap) (k : bytes) : bytes := match hget h k with v :: _ => v | [] => [] end.  (* Header.Get *)
 Definition hkeys (h : hmap) : list bytes := map fst h.
 
-(* cloneHeader: drops the keys of HopHeaders *)
+(* cloneHeader: drops every key whose canonical form is a key of HopHeaders (fix: a raw, non-canonical map key such as
+   "connection" used to pass) *)
 Definition clone_header (hop : list bytes) (h : hmap) : hmap :=
-  filter (fun e => negb (mem_bytes (fst e) hop)) h.
+  filter (fun e => negb (mem_bytes (canon (fst e)) hop)) h.
 
 (* write.go encodeHeaders over the given key list *)
 Definition enc_key (h : hmap) (k : bytes) : list (bytes * bytes) :=
@@ -271,7 +272,8 @@ Fixpoint bw_write (fuel : nat) (e : env) (p : bytes) (s : rws) (acc : list frame
 
 (* ---------- handler scripts ---------- *)
 Inductive hop_ :=
-| OSet (k v : bytes) | OAdd (k v : bytes) | OWriteHeader (code : Z) | OWrite (p : bytes) | OFlush.
+| OSet (k v : bytes) | OAdd (k v : bytes) | OWriteHeader (code : Z) | OWrite (p : bytes) | OFlush
+| ORaw (k v : bytes).   (* w.Header()[k] = append(w.Header()[k], v): direct map access, the key is NOT canonicalised *)
 
 Definition set_hh (s : rws) (h : hmap) : rws :=
   mkR h (wroteH s) (status s) (snap s) (sentH s) (trailers s) (sentCL s) (wroteB s) (buf s) (berr s).
@@ -292,6 +294,7 @@ Definition step (e : env) (o : hop_) (s : rws) : list frame * rws * list Z :=
   match o with
   | OSet k v => ([], set_hh s (hput (hh s) (canon k) [v]), [])
   | OAdd k v => let k' := canon k in ([], set_hh s (hput (hh s) k' (hget (hh s) k' ++ [v])), [])
+  | ORaw k v => ([], set_hh s (hput (hh s) k (hget (hh s) k ++ [v])), [])
   | OWriteHeader c => ([], write_header e c s, [])
   | OFlush => let '(fr, s') := do_flush e false s in (fr, s', [])
   | OWrite p =>
@@ -350,6 +353,36 @@ Fixpoint wire_frames (g w : Z) (fs : list frame) {struct fs} : list frame :=
   | FH e fl :: r => FH e fl :: wire_frames g w r
   | FD e p :: r => let '(c, w') := chunk_data (length p) g w e p in c ++ wire_frames g w' r
   end.
+
+(* ---------- write.go writeResHeaders.writeFrame: HEADERS + CONTINUATION split of an encoded header block ----------
+     for len(headerBlock) > 0 { frag := headerBlock; if len(frag) > maxFrameSize { frag = frag[:maxFrameSize] }
+                                headerBlock = headerBlock[len(frag):]; endHeaders := len(headerBlock) == 0; write ... }
+   Result: the fragments in order, each with its END_HEADERS flag (the first one is the HEADERS frame, the others are
+   CONTINUATION frames).  The HPACK encoding itself is not modelled: the block is a parameter.  fuel = length of the
+   block suffices when m > 0 (every round consumes at least one byte). *)
+Definition max_hdr_frame : Z := 16384.
+Fixpoint split_block (fuel : nat) (m : Z) (b : bytes) {struct fuel} : list (bytes * bool) :=
+  match fuel with
+  | O => []
+  | S f =>
+    match b with
+    | [] => []
+    | _ =>
+      let frag := if m <? blen b then firstn (Z.to_nat m) b else b in
+      let rest := skipn (length frag) b in
+      (frag, match rest with [] => true | _ => false end) :: split_block f m rest
+    end
+  end.
+Definition header_fragments (b : bytes) : list (bytes * bool) := split_block (length b) max_hdr_frame b.
+
+(* the same on lengths (what the harness can observe): fragment lengths with END_HEADERS flags for a block of l bytes *)
+Fixpoint split_lens (fuel : nat) (m l : Z) {struct fuel} : list (Z * bool) :=
+  match fuel with
+  | O => []
+  | S f => if l <=? 0 then []
+           else let a := if m <? l then m else l in (a, (l - a) =? 0) :: split_lens f m (l - a)
+  end.
+Definition header_fragment_lens (l : Z) : list (Z * bool) := split_lens (Z.to_nat (l / max_hdr_frame) + 2) max_hdr_frame l.
 
 (* ---------- specification side (used by prop_C38; written from the statement, not from writeChunk) ---------- *)
 (* RFC 7540 8.1.2.2 connection-specific header fields, lower case *)
